@@ -15,6 +15,7 @@ pub mod c13;
 pub mod c14;
 pub mod c15;
 pub mod c16;
+pub mod c17;
 pub mod c19;
 pub mod c20;
 
@@ -36,6 +37,7 @@ pub fn get(id: &str) -> Option<Box<dyn Prop>> {
     "C14" => Some(Box::new(c14::C14)),
     "C15" => Some(Box::new(c15::C15)),
     "C16" => Some(Box::new(c16::C16)),
+    "C17" => Some(Box::new(c17::C17)),
     "C19" => Some(Box::new(c19::C19)),
     "C20" => Some(Box::new(c20::C20)),
     _ => None,
